@@ -42,6 +42,6 @@ ClassifyD(Blocks, b, n) == LET f == Blocks[b].flags[n] IN
    ELSE IF Bound(f) THEN (IF Blocks[b].type = "function" /\ \E d \in Desc(Blocks, b) : RefersFree(Blocks, d, n) /\ Binder(Blocks, d, n) = b
                           THEN CELL ELSE LOC)
    ELSE IF Binder(Blocks, b, n) # 0 THEN FREE ELSE GI
-ClassTable(Blocks) == [b \in 1..Len(Blocks) |-> [n \in Names |-> ClassifyD(Blocks, b, n)]]
+ClassTable(Blocks) == TLCEval([b \in 1..Len(Blocks) |-> TLCEval([n \in Names |-> ClassifyD(Blocks, b, n)])])
 AnyErrorD(Blocks) == \E n \in Names : ErrorD(Blocks, n)
 ====
